@@ -140,7 +140,7 @@ pub fn minimize(ctx: &Ctx, sc: &Scenario, key: &str) -> Scenario {
                         tries.push(n);
                     }
                     let parts: Vec<&str> = node.faults[fi].split(':').collect();
-                    if parts.len() == 3 {
+                    if parts.len() == 3 && parts[1] != "fail" {
                         if let Ok(k) = parts[2].parse::<u64>() {
                             for nk in [0u64, 1, k / 2] {
                                 if nk < k {
@@ -216,6 +216,14 @@ pub struct Reporter {
 
 impl Reporter {
     pub fn new(property: &str) -> Reporter {
+        // replay files of earlier runs of this property are stale now
+        if let Ok(rd) = std::fs::read_dir(simcore::replay_dir()) {
+            for f in rd.flatten() {
+                if f.file_name().to_string_lossy().starts_with(&format!("{property}-")) {
+                    let _ = std::fs::remove_file(f.path());
+                }
+            }
+        }
         Reporter { property: property.to_string(), by_key: BTreeMap::new(), total: 0 }
     }
     pub fn add(&mut self, sc: &Scenario, vs: &[Violation]) {
